@@ -547,6 +547,31 @@ type onner interface {
 
 func testifyStress(name string, mk func(t tT) interface{}, unroll bool, plan *Plan) {
 	G, K := plan.G, plan.K/2+1
+	{
+		// constructors of several mocks run concurrently (parallel tests each build their own mock): they must not
+		// share unsynchronised state either
+		var cwg sync.WaitGroup
+		var go_ int32
+		for i := 0; i < 4; i++ {
+			cwg.Add(1)
+			go func() {
+				defer cwg.Done()
+				defer func() {
+					if p := recover(); p != nil {
+						fail(name, "testify", "panic", "in the constructor: "+fmt.Sprint(p))
+					}
+				}()
+				for atomic.LoadInt32(&go_) == 0 {
+				}
+				for j := 0; j < 3; j++ {
+					mk(&recT{})
+				}
+			}()
+		}
+		atomic.StoreInt32(&go_, 1)
+		cwg.Wait()
+		stat("testify_concurrent_constructors", 12)
+	}
 	for round := 0; round < plan.Rounds; round++ {
 		rt := &recT{}
 		m := mk(rt)
@@ -659,7 +684,16 @@ func testifyStress(name string, mk func(t tT) interface{}, unroll bool, plan *Pl
 			defer rwg.Done()
 			n := 0
 			for atomic.LoadInt32(&stop) == 0 && n < 300 {
-				on.On("B", -1-n).Return(0).Maybe()
+				if round%2 == 1 && n%2 == 0 {
+					// through the generated typed helper: EXPECT().B(x).Return(0), then Maybe() on the embedded *mock.Call
+					if co := v.MethodByName("EXPECT").Call(nil)[0].MethodByName("B").Call([]reflect.Value{reflect.ValueOf(-1 - n)})[0]; co.IsValid() {
+						co.MethodByName("Return").Call([]reflect.Value{reflect.ValueOf(0)})
+						co.Elem().FieldByName("Call").MethodByName("Maybe").Call(nil)
+						stat("testify_concurrent_typed_on", 1)
+					}
+				} else {
+					on.On("B", -1-n).Return(0).Maybe()
+				}
 				n++
 				runtime.Gosched()
 			}
